@@ -27,3 +27,13 @@ Fixpoint iterate (n : nat) (s : sv ex_params) : sv ex_params :=
   match n with O => s | S n => iterate n (snd (fst (iteration ex_params s))) end.
 Definition after (evs : list (eev ex_params)) : sv ex_params :=
   fst (exec ex_params evs (init_sv ex_params tt)).
+
+(* the example service keeps no state: it is trivially a service with per-connection state *)
+From ZV Require Import Server.ServerLocal.
+Definition ex_local : local ex_params.
+Proof.
+  refine (mkLocal ex_params unit (fun _ _ => tt) (fun cl _ => (fst (ex_handle cl tt), tt)) _ _ _).
+  - intros cl []. reflexivity.
+  - intros cl s. reflexivity.
+  - intros cl s k _. reflexivity.
+Defined.
